@@ -112,9 +112,24 @@ def wrap_rule(ck, rule, rule_carrier):
         if pf.ret is None:
             ck.bad(rule, w, "wrap returns the reduced value", "path without return value", w.node)
             continue
-        sg = [g for g in pf.guards if g[2] is not None and dotted(g[2]) == sp]
+        sg = [g for g in pf.guards if dotted(g[0]) == sp]
         signed = sg[-1][1] if sg else None
-        wide = [g for g in pf.guards if g[2] is not None and _wide_guard(prog, g[2], np_)]
+        wide = []
+        for g in pf.guards:
+            t, pol = g[0], g[1]
+            while isinstance(t, ast.UnaryOp) and isinstance(t.op, ast.Not):
+                t, pol = t.operand, not pol
+            if _wide_guard(prog, t, np_):
+                wide.append((t, pol))
+            elif isinstance(t, ast.Compare) and len(t.ops) == 1:
+                # flipped spellings: T <= n_word, n_word < T, T > n_word
+                l, op, r = t.left, t.ops[0], t.comparators[0]
+                if dotted(r) == np_ and _threshold_ok(prog, l) and isinstance(op, ast.LtE):
+                    wide.append((t, pol))
+                elif dotted(l) == np_ and _threshold_ok(prog, r) and isinstance(op, ast.Lt):
+                    wide.append((t, not pol))
+                elif dotted(r) == np_ and _threshold_ok(prog, l) and isinstance(op, ast.Gt):
+                    wide.append((t, not pol))
         problems = []
         cl = classify_wrap(pf.ret, xp, problems)
         for what, construct, detail in problems:
